@@ -150,6 +150,35 @@ func genShape(repo string) (*leanFile, error) {
 	// call of sendPacket, which is in the default clause or after the select
 	sp := p.funcDecl("Channel", "sendPackets")
 	ctxChecked := false
+	// a helper that is the non-blocking context check: a select with a `<-ctx.Done()` case that returns
+	// something other than nil and a default clause
+	ctxSelectHelper := func(fd *ast.FuncDecl) bool {
+		found := false
+		ast.Inspect(fd.Body, func(n ast.Node) bool {
+			sel, ok := n.(*ast.SelectStmt)
+			if !ok {
+				return true
+			}
+			hasCtx, hasDefault := false, false
+			for _, c := range sel.Body.List {
+				cc := c.(*ast.CommClause)
+				if cc.Comm == nil {
+					hasDefault = true
+					continue
+				}
+				if es, ok := cc.Comm.(*ast.ExprStmt); ok && exprStr(es.X) == "<-ctx.Done()" && len(cc.Body) > 0 {
+					if r, ok := cc.Body[len(cc.Body)-1].(*ast.ReturnStmt); ok && len(r.Results) > 0 && exprStr(r.Results[len(r.Results)-1]) != "nil" {
+						hasCtx = true
+					}
+				}
+			}
+			if hasCtx && hasDefault {
+				found = true
+			}
+			return true
+		})
+		return found
+	}
 	if sp != nil {
 		loopBody := func(n ast.Node) *ast.BlockStmt {
 			switch l := n.(type) {
@@ -167,6 +196,32 @@ func genShape(repo string) (*leanFile, error) {
 			}
 			selPos, sendPos := token.NoPos, token.NoPos
 			for _, st := range body.List {
+				// the check extracted into a helper: `if err := recv.helper(ctx); err != nil { return … }` where
+				// the helper's body is that non-blocking select
+				if ifs, ok := st.(*ast.IfStmt); ok && selPos == token.NoPos && ifs.Init != nil && exprStr(ifs.Cond) == "err != nil" && len(ifs.Body.List) > 0 {
+					if _, isRet := ifs.Body.List[len(ifs.Body.List)-1].(*ast.ReturnStmt); isRet {
+						ast.Inspect(ifs.Init, func(m ast.Node) bool {
+							ce, ok := m.(*ast.CallExpr)
+							if !ok {
+								return true
+							}
+							var id *ast.Ident
+							switch f := ce.Fun.(type) {
+							case *ast.Ident:
+								id = f
+							case *ast.SelectorExpr:
+								id = f.Sel
+							}
+							if id == nil {
+								return true
+							}
+							if callee, ok := declOf[p.info.Uses[id]]; ok && ctxSelectHelper(callee) {
+								selPos = ifs.Pos()
+							}
+							return true
+						})
+					}
+				}
 				if sel, ok := st.(*ast.SelectStmt); ok && selPos == token.NoPos {
 					hasCtx, hasDefault := false, false
 					for _, c := range sel.Body.List {
@@ -211,12 +266,49 @@ func genShape(repo string) (*leanFile, error) {
 				closedFirst = true
 			}
 		}
-		// the last select statement of the function
+		// the blocking select of the call: the select statement with the most cases in NextPackage or in a
+		// Channel method it calls (a maintainer may split the function); local names are resolved to what
+		// they were assigned (`connCtx := tdsChan.tdsConn.ctx`), a channel made locally is called `ch`
 		var lastSel *ast.SelectStmt
-		for _, st := range np.Body.List {
-			if s, ok := st.(*ast.SelectStmt); ok {
-				lastSel = s
+		locals := map[string]string{}
+		for _, fd := range reachable(np) {
+			if fd.Recv == nil || len(fd.Recv.List) != 1 || strings.TrimPrefix(exprStr(fd.Recv.List[0].Type), "*") != "Channel" {
+				continue
 			}
+			if fd != np && fd.Name.IsExported() {
+				continue
+			}
+			ast.Inspect(fd.Body, func(n ast.Node) bool {
+				switch x := n.(type) {
+				case *ast.SelectStmt:
+					if lastSel == nil || len(x.Body.List) > len(lastSel.Body.List) || (len(x.Body.List) == len(lastSel.Body.List) && fd == np) {
+						lastSel = x
+					}
+				case *ast.AssignStmt:
+					if x.Tok == token.DEFINE && len(x.Lhs) == 1 && len(x.Rhs) == 1 {
+						if id, ok := x.Lhs[0].(*ast.Ident); ok {
+							rhs := exprStr(x.Rhs[0])
+							if strings.HasPrefix(rhs, "make(chan ") {
+								rhs = "ch"
+							}
+							locals[id.Name] = rhs
+						}
+					}
+				}
+				return true
+			})
+		}
+		canon := func(e string) string {
+			// `<-name` or `<-name.Done()` with a local name
+			rest := strings.TrimPrefix(e, "<-")
+			base, suffix := rest, ""
+			if strings.HasSuffix(rest, ".Done()") {
+				base, suffix = strings.TrimSuffix(rest, ".Done()"), ".Done()"
+			}
+			if v, ok := locals[base]; ok && base != "ctx" {
+				return "<-" + v + suffix
+			}
+			return e
 		}
 		if lastSel != nil {
 			for _, c := range lastSel.Body.List {
@@ -232,7 +324,7 @@ func genShape(repo string) (*leanFile, error) {
 				case *ast.AssignStmt:
 					rhs = exprStr(s.Rhs[0])
 				}
-				cases = append(cases, rhs)
+				cases = append(cases, canon(rhs))
 			}
 		}
 	}
@@ -562,7 +654,54 @@ func genShape(repo string) (*leanFile, error) {
 	cc := p.funcDecl("Conn", "Close")
 	byRange, closesEach, cancels, closesTransport, otherMapUse := false, false, false, false, false
 	collected := ""
+	// the collecting loop extracted into a helper: `chans := tds.helper()` where the helper ranges over the
+	// map, appends every value to a slice and returns that slice
+	collectsAll := func(fd *ast.FuncDecl) bool {
+		ok1, slice, other := false, "", false
+		ast.Inspect(fd.Body, func(n ast.Node) bool {
+			switch x := n.(type) {
+			case *ast.RangeStmt:
+				if exprStr(x.X) == "tds.tdsChannels" {
+					if v, ok := x.Value.(*ast.Ident); ok && len(x.Body.List) == 1 {
+						if as, ok := x.Body.List[0].(*ast.AssignStmt); ok && len(as.Rhs) == 1 {
+							if c, ok := as.Rhs[0].(*ast.CallExpr); ok && exprStr(c.Fun) == "append" && len(c.Args) == 2 && exprStr(c.Args[1]) == v.Name && exprStr(c.Args[0]) == exprStr(as.Lhs[0]) {
+								ok1, slice = true, exprStr(as.Lhs[0])
+							}
+						}
+					}
+					return false
+				}
+			case *ast.SelectorExpr:
+				if exprStr(x) == "tds.tdsChannels" {
+					other = true
+				}
+			}
+			return true
+		})
+		returnsIt := false
+		ast.Inspect(fd.Body, func(n ast.Node) bool {
+			if r, ok := n.(*ast.ReturnStmt); ok {
+				if (len(r.Results) == 1 && exprStr(r.Results[0]) == slice) || (len(r.Results) == 0 && fd.Type.Results != nil && len(fd.Type.Results.List) == 1 && len(fd.Type.Results.List[0].Names) == 1 && fd.Type.Results.List[0].Names[0].Name == slice) {
+					returnsIt = true
+				}
+			}
+			return true
+		})
+		return ok1 && !other && returnsIt
+	}
 	if cc != nil {
+		for _, st := range cc.Body.List {
+			if as, ok := st.(*ast.AssignStmt); ok && len(as.Lhs) == 1 && len(as.Rhs) == 1 {
+				if ce, ok := as.Rhs[0].(*ast.CallExpr); ok {
+					if sel, ok := ce.Fun.(*ast.SelectorExpr); ok && exprStr(sel.X) == "tds" {
+						if callee, ok := declOf[p.info.Uses[sel.Sel]]; ok && collectsAll(callee) {
+							byRange = true
+							collected = exprStr(as.Lhs[0])
+						}
+					}
+				}
+			}
+		}
 		ast.Inspect(cc.Body, func(n ast.Node) bool {
 			switch x := n.(type) {
 			case *ast.RangeStmt:
@@ -577,6 +716,14 @@ func genShape(repo string) (*leanFile, error) {
 						}
 					}
 					return false
+				}
+				if ce, ok := x.X.(*ast.CallExpr); ok { // `for _, ch := range tds.helper()`
+					if sel, ok := ce.Fun.(*ast.SelectorExpr); ok && exprStr(sel.X) == "tds" {
+						if callee, ok := declOf[p.info.Uses[sel.Sel]]; ok && collectsAll(callee) {
+							byRange = true
+							collected = exprStr(x.X)
+						}
+					}
 				}
 				if collected != "" && exprStr(x.X) == collected {
 					if v, ok := x.Value.(*ast.Ident); ok {
@@ -681,11 +828,36 @@ func genShape(repo string) (*leanFile, error) {
 	lf.pf("/-- `sendPackets` returns an error at the first packet write that fails (nothing is written after it) -/\n")
 	lf.pf("def sendPacketsReturnsFirstError : Bool := %v\n", returnsFirst)
 	// Close: a failed write of the teardown packet does not end Close — the client-side teardown follows
-	clBranches := sendErrBranches(cl)
-	tearsDown := len(clBranches) > 0
-	for _, ifs := range clBranches {
-		if hasReturn(ifs.Body) {
-			tearsDown = false
+	// (whether the write sits in Close itself or in a helper it calls): between its first statement and the
+	// statement that takes the write lock, Close returns only for the channel that is closed already
+	_ = hasReturn
+	tearsDown := false
+	{
+		lockAt := token.NoPos
+		for _, st := range cl.Body.List {
+			if es, ok := st.(*ast.ExprStmt); ok && exprStr(es.X) == "tdsChan.Lock()" && lockAt == token.NoPos {
+				lockAt = es.Pos()
+			}
+		}
+		sendsTeardown := false
+		for _, fd := range reachable(cl) {
+			if fd.Name.Name == "sendPacket" {
+				sendsTeardown = true
+			}
+		}
+		if lockAt != token.NoPos && sendsTeardown {
+			tearsDown = true
+			ast.Inspect(cl.Body, func(m ast.Node) bool {
+				if _, ok := m.(*ast.FuncLit); ok {
+					return false
+				}
+				if r, ok := m.(*ast.ReturnStmt); ok && r.Pos() < lockAt {
+					if !(len(r.Results) == 1 && exprStr(r.Results[0]) == "ErrChannelClosed") {
+						tearsDown = false
+					}
+				}
+				return true
+			})
 		}
 	}
 	lf.pf("/-- `Channel.Close` goes on with the client-side teardown when the write of the teardown packet fails -/\n")
